@@ -210,8 +210,12 @@ def tweaked(draw) -> Tuple[Dict[str, str], List[str]]:
             d.decls.insert(k % (len(d.decls) + 1), M.Mod(mpath))
             rel = "/".join(mpath) + ".fcp"
             if tw == "mod_garbage":
+                pad = "\n" * (40 + k % 50)
                 files[rel] = ['version: "3"\nstruct $', "\x00\x01", 'version: "3"\nenum E { }', 'version: "2"',
-                              'version: "3"\nstruct S { a @0: Nope, }', ""][k % 6]
+                              'version: "3"\nstruct S { a @0: Nope, }', "",
+                              'version: "3"' + pad + 'enum E { }\n', 'version: "3"' + pad + 'struct S { a @1.5: u8, }\n',
+                              'version: "3"' + pad + 'struct S { a @0: u8 | foo(1), }\n',
+                              'version: "3"' + pad + 'struct S { a @0: Nope, }\n'][k % 10]
             elif tw == "mod_eof":
                 files[rel] = ['version: "3"\nstruct S { a @0: u8,', 'version: "3"\n\n\nstruct S {\n a @0:', "version:",
                               'version: "3"\nmod'][k % 4]
